@@ -1145,6 +1145,17 @@ class Interp:
             if f is not None and f.kind == 'fn':
                 return f
             cands = [x for x in self.bylast.get(method, []) if x.kind == 'fn' and '<impl at' not in x.name]
+            if len(segs) > 1 and segs[0] in self.crates and segs[0] != fn.crate:
+                # explicitly crate-qualified path: only that crate
+                c0 = segs[0]
+                rest = '::'.join(segs[1:])
+                hit = [x for x in cands if x.crate == c0 and (x.name == rest or x.name.endswith('::' + rest)
+                                                              or rest.endswith('::' + x.name))]
+                if len(hit) == 1:
+                    return hit[0]
+                if len(hit) > 1:
+                    raise Gap('ambiguous callee %s: %s' % (callee, hit))
+                return None
             hit = [x for x in cands if x.crate == fn.crate and (x.name.endswith('::' + c) or c.endswith('::' + x.name))]
             if len(hit) == 1:
                 return hit[0]
@@ -1162,6 +1173,10 @@ class Interp:
                 own = [x for x in hit if x.crate == fn.crate]
                 if len(own) == 1:
                     return own[0]
+                from .engine import DEPS
+                dep = [x for x in hit if x.crate in DEPS.get(fn.crate, [])]
+                if len(dep) == 1:
+                    return dep[0]
                 raise Gap('ambiguous callee %s: %s' % (callee, hit))
             if len(segs) >= 2 and segs[-2][:1].isupper():
                 selfty = '::'.join(segs[:-1])
